@@ -263,7 +263,7 @@ Ni1 0 0 0
 """
 
 PRIORS = ["empty", "atoms", "copy-of-other-class", "stale-pdffit", "stale-xcfg", "extra-attrs", "titled", "loaded-nonP1-cif",
-          "rotated-lattice"]
+          "rotated-lattice", "same-cell-rotated"]
 
 
 def make_prior(kind, clsname):
@@ -275,6 +275,11 @@ def make_prior(kind, clsname):
         return T()
     if kind == "atoms":
         return T([A("Cu", [0, 0, 0]), A("Zn", [0.5, 0.5, 0.5])], lattice=ds.Lattice(3.1, 3.1, 5.2, 90, 90, 120))
+    if kind == "same-cell-rotated":
+        # exactly the six cell parameters of the source (filled in by read_case), in another orientation; falls back to
+        # a unit cell in that orientation (what an xyz source gives) when the source cannot be parsed
+        return T([A("Cu", [0, 0, 0]), A("Zn", [0.5, 0.5, 0.5])],
+                 lattice=ds.Lattice(1.0, 1.0, 1.0, 90, 90, 90, baserot=[[0.0, 1.0, 0.0], [0.0, 0.0, 1.0], [1.0, 0.0, 0.0]]))
     if kind == "rotated-lattice":
         # a cell in a non-standard orientation (as left by a PDB/XCFG read or Lattice(base=...))
         return T([A("Cu", [0, 0, 0]), A("Zn", [0.5, 0.5, 0.5])],
@@ -457,6 +462,9 @@ def read_case(ck, case, tmp, lines, pending):
                 f.write(text)
     sep = parse_separately(fmt, mode, text, path)
     t = make_prior(prior, clsname)
+    if prior == "same-cell-rotated" and sep[0] == "ok":
+        c_, s_ = 0.6, 0.8
+        t.lattice = ds.Lattice(*[float(v) for v in sep[1].lattice.abcABG()], baserot=[[c_, s_, 0.0], [-s_, c_, 0.0], [0.0, 0.0, 1.0]])
     ids = Ids()
     keep = list(t)
     before = snapshot(t)
